@@ -318,3 +318,82 @@ func (pc *propCheck) replayCommand() replayResult {
 	}
 	return r
 }
+
+// replayCoTranslation (C06): the goose binary built from /repo translates the
+// packages of /verif/witness_cmd/cotrans (a pure package and a user of the disk
+// FFI sharing a pure dependency) each on its own, then together in both pattern
+// orders, as ./..., and under GOMAXPROCS 1 and 8, several times; every output file
+// must be byte-identical to the one produced alone.
+func (pc *propCheck) replayCoTranslation() replayResult {
+	r := replayResult{Tried: true, Cmd: "goose built from " + repoDir + " on /verif/witness_cmd/cotrans: each package alone vs. together (see gvc/witness.go replayCoTranslation)"}
+	bin, berr := pc.buildGoose()
+	if bin == "" {
+		r.Output = berr
+		return r
+	}
+	mod := filepath.Join(verifDir, "witness_cmd", "cotrans")
+	run := func(procs string, pats ...string) (map[string]string, int, string) {
+		out, _ := os.MkdirTemp(pc.WorkDir, "cot-")
+		defer os.RemoveAll(out)
+		cmd := exec.Command(bin, append([]string{"-out", out}, pats...)...)
+		cmd.Dir = mod
+		cmd.Env = append(os.Environ(), "GOFLAGS=-mod=mod", "GOPROXY=off", "GOSUMDB=off", "GOTOOLCHAIN=local", "GOMAXPROCS="+procs)
+		b, err := cmd.CombinedOutput()
+		code := 0
+		if ee, ok := err.(*exec.ExitError); ok {
+			code = ee.ExitCode()
+		} else if err != nil {
+			code = -1
+		}
+		files := map[string]string{}
+		filepath.Walk(out, func(p string, info os.FileInfo, err error) error {
+			if err == nil && strings.HasSuffix(p, ".v") {
+				c, _ := os.ReadFile(p)
+				rel, _ := filepath.Rel(out, p)
+				files[rel] = string(c)
+			}
+			return nil
+		})
+		return files, code, string(b)
+	}
+	alone := map[string]string{}
+	for _, p := range []string{"./kvclient", "./store", "./util"} {
+		fs, code, log := run("4", p)
+		if code != 0 || len(fs) != 1 {
+			r.Confirmed = true
+			r.Detail = fmt.Sprintf("goose %s alone: exit %d, %d files\n%s", p, code, len(fs), firstLine(log))
+			return r
+		}
+		for k, v := range fs {
+			alone[k] = v
+		}
+	}
+	for _, procs := range []string{"1", "8"} {
+		for _, pats := range [][]string{{"./kvclient", "./store"}, {"./store", "./kvclient"}, {"./..."}, {"./util", "./store", "./kvclient"}} {
+			for rep := 0; rep < 3; rep++ {
+				fs, code, log := run(procs, pats...)
+				if code != 0 {
+					r.Confirmed = true
+					r.Detail = fmt.Sprintf("GOMAXPROCS=%s goose %v: exit %d although each package translates alone\n%s", procs, pats, code, firstLine(log))
+					return r
+				}
+				for k, v := range fs {
+					if alone[k] != v {
+						r.Confirmed = true
+						r.Detail = fmt.Sprintf("GOMAXPROCS=%s goose %v (repetition %d): %s differs from the translation of the same package on its own\n--- alone ---\n%s\n--- together ---\n%s", procs, pats, rep, k, headLines(alone[k], 6), headLines(v, 6))
+						return r
+					}
+				}
+			}
+		}
+	}
+	return r
+}
+
+func headLines(s string, n int) string {
+	ls := strings.Split(s, "\n")
+	if len(ls) > n {
+		ls = ls[:n]
+	}
+	return strings.Join(ls, "\n")
+}
